@@ -50,7 +50,8 @@ CHECKS = {
         "from_multiple, check_yaml_budget and read with limits = usage / usage-1 / unlimited and the ratio rule at its "
         "thresholds is decided by the TLA+ trace validator from the raw events saphyr-parser gives for the text.",
    design_ref="DESIGN.md section 4 C07",
-   note="bounded: streams of <= 2 documents up to 10/11 events exhaustively, random streams of <= 3 documents beyond; the events "
+   note="bounded: streams of <= 2 documents up to 10/11 events exhaustively, three-document streams built from each single "
+        "document (three copies; the document around an over-limit one) and random streams of <= 3 documents beyond; the events "
         "threshold is not exercised for the streaming iterator (the stream-end marker is counted against the last document); " + TRUST,
    technique="TLA+ model (Budget.tla, MC_Budget.tla) checked by TLC + TLC trace validation of recorded budgeted calls against Budget!Usage / FirstExceeded + action-level trace validation of the instrumented enforcer (TR_Budget)"),
  "C11": dict(
@@ -58,10 +59,12 @@ CHECKS = {
    text="Stream.tla gives the declarative meaning of a stream as the list of its documents (null/empty skipped, type errors "
         "are items, a scanner failure ends the list, any second document makes single-document entry points fail) and MC_Stream "
         "checks operational models of ReadIter::next (peek / null skip / deserialize / skip_to_next_document / finished) and of "
-        "from_multiple against it for every kind sequence up to a bound, including termination under fairness; every text is "
-        "then run through all batch, iterator and single-document entry points and decided by the TLA+ trace validator.",
+        "from_multiple against it for every kind sequence up to a bound, including termination under fairness, and of the same "
+        "iterator given a budget (a budget error is an item, wherever in the document it was raised, and the iteration goes on); "
+        "every text is then run through all batch, iterator (plain, validating, with and without a budget) and single-document "
+        "entry points and decided by the TLA+ trace validator.",
    design_ref="DESIGN.md section 4 C11",
-   note="bounded: all sequences of <= 3 (quick) / 4 (thorough) kinds over 11 document kinds x marker/comment variants, random longer "
+   note="bounded: all sequences of <= 3 (quick) / 4 (thorough) kinds over 13 document kinds x marker/comment variants, random longer "
         "streams; whether the iterator ends or goes on after an unknown-alias error is not prescribed (both admissible); " + TRUST,
    technique="TLA+ model (Stream.tla, MC_Stream.tla incl. liveness) checked by TLC + TLC trace validation of recorded entry-point results"),
  "C05": dict(
